@@ -4,69 +4,73 @@
    cache c (any iteration order of childs() at every visit); [crash s seq k] is the disk after a crash
    that let exactly the first k puts through; batches are arbitrary segmentations of seq. *)
 From stdpp Require Import gmap.
-From V.C03 Require Import Model Proofs.
+From V.Base Require Import Hex.
+From V.C08 Require Model.
+From V.C02 Require Model Sem ProofsB.
+From V.C02 Require ModelB.
+From V.C03 Require Import Model Proofs Concrete ConcreteProofs TrieLink TrieStore TrieReopen.
 
 (* Children are written before parents: whatever prefix of the put sequence reaches the disk, every
    stored node's references are stored. *)
-Theorem C03_prefix_closed : ∀ s r seq,
+Theorem C03_prefix_closed : ∀ (K : Type) `{!EqDecision K, !Countable K} (s : @store K _ _) r seq,
   run (cache s) r seq → cache_closed s → closed (disk s) → ∀ k, closed (crash s seq k).
-Proof. exact prefix_closed. Qed.
+Proof. intros K ? ?. exact prefix_closed. Qed.
 Print Assumptions C03_prefix_closed.
 
 (* The same at the granularity the disk really offers: for ANY split of the puts into atomically
    written batches, after any number of whole batches the disk is closed ... *)
-Theorem C03_batch_boundary_closed : ∀ s r seq bs,
+Theorem C03_batch_boundary_closed : ∀ (K : Type) `{!EqDecision K, !Countable K} (s : @store K _ _) r seq bs,
   run (cache s) r seq → cache_closed s → closed (disk s) → concat bs = seq →
   ∀ j, closed (put_all (cache s) (disk s) (concat (take j bs))).
-Proof. exact batch_boundary_closed. Qed.
+Proof. intros K ? ?. exact batch_boundary_closed. Qed.
 Print Assumptions C03_batch_boundary_closed.
 
 (* ... in particular for the split commit() makes (Write when ValueSize >= limit, one final Write). *)
-Theorem C03_code_batches_closed : ∀ s r seq limit size,
+Theorem C03_code_batches_closed : ∀ (K : Type) `{!EqDecision K, !Countable K} (s : @store K _ _) r seq limit size,
   run (cache s) r seq → cache_closed s → closed (disk s) →
   ∀ j, closed (put_all (cache s) (disk s) (concat (take j (batch_run limit size seq [] 0%N)))).
-Proof. exact code_batches_closed. Qed.
+Proof. intros K ? ?. exact code_batches_closed. Qed.
 Print Assumptions C03_code_batches_closed.
 
 (* On a closed disk, a root whose top node is present is fully resolvable. *)
-Theorem C03_top_implies_all : ∀ d r, closed d → is_Some (d !! r) → resolvable d r.
-Proof. exact top_implies_all. Qed.
+Theorem C03_top_implies_all : ∀ (K : Type) `{!EqDecision K, !Countable K} (d : gmap K (list K)) r, closed d → is_Some (d !! r) → resolvable d r.
+Proof. intros K ? ?. exact top_implies_all. Qed.
 Print Assumptions C03_top_implies_all.
 
 (* No deletes: whatever is put (any sequence, any crash point), a root that was resolvable before the
    commit stays resolvable, reaches exactly the same nodes, and they hold the same blobs.
    [consistent] = hash addressing (a hash names one blob). *)
-Theorem C03_old_roots_kept : ∀ s r seq k,
+Theorem C03_old_roots_kept : ∀ (K : Type) `{!EqDecision K, !Countable K} (s : @store K _ _) r seq k,
   consistent s → resolvable (disk s) r →
   resolvable (crash s seq k) r
   ∧ (∀ h, reach (disk s) r h → crash s seq k !! h = disk s !! h)
   ∧ (∀ h, reach (crash s seq k) r h ↔ reach (disk s) r h).
-Proof. exact old_roots_kept. Qed.
+Proof. intros K ? ?. exact old_roots_kept. Qed.
 Print Assumptions C03_old_roots_kept.
 
 (* After the whole sequence the committed root is on disk and resolvable from the disk alone, and
    every node the pre-commit view (dirty cache over disk) reached from it is on disk unchanged. *)
-Theorem C03_commit_complete : ∀ s r seq,
+Theorem C03_commit_complete : ∀ (K : Type) `{!EqDecision K, !Countable K} (s : @store K _ _) r seq,
   consistent s → cache_closed s → closed (disk s) → run (cache s) r seq → is_Some (view s !! r) →
   let d' := crash s seq (length seq) in
   is_Some (d' !! r) ∧ closed d' ∧ resolvable d' r ∧ (∀ h, reach (view s) r h → d' !! h = view s !! h).
-Proof. exact commit_complete. Qed.
+Proof. intros K ? ?. exact commit_complete. Qed.
 Print Assumptions C03_commit_complete.
 
 (* The executable walk is one of the runs, and with no reference cycle among dirty nodes (hash
    addressing) it terminates within fuel = number of dirty nodes + 1. *)
-Theorem C03_commit_seq_is_run : ∀ fuel c h seq, commit_seq fuel c h = Some seq → run c h seq.
-Proof. exact commit_seq_run. Qed.
+Theorem C03_commit_seq_is_run : ∀ (K : Type) `{!EqDecision K, !Countable K} fuel (c : gmap K (@dnode K)) h seq, commit_seq fuel c h = Some seq → run c h seq.
+Proof. intros K ? ?. exact commit_seq_run. Qed.
 Print Assumptions C03_commit_seq_is_run.
 
-Theorem C03_commit_terminates : ∀ c r, acyclic c → is_Some (commit_seq (S (size c)) c r).
-Proof. exact commit_terminates. Qed.
+Theorem C03_commit_terminates : ∀ (K : Type) `{!EqDecision K, !Countable K} (c : gmap K (@dnode K)) r, acyclic c → is_Some (commit_seq (S (size c)) c r).
+Proof. intros K ? ?. exact commit_terminates. Qed.
 Print Assumptions C03_commit_terminates.
 
 (* The invariant (closed disk; every reference of a dirty blob on disk or a tracked dirty child; hash
    addressing) survives a commit followed by uncache. *)
-Theorem C03_commit_preserves_inv : ∀ s r seq, inv s → run (cache s) r seq → inv (after_commit s seq).
-Proof. exact commit_preserves_inv. Qed.
+Theorem C03_commit_preserves_inv : ∀ (K : Type) `{!EqDecision K, !Countable K} (s : @store K _ _) r seq, inv s → run (cache s) r seq → inv (after_commit s seq).
+Proof. intros K ? ?. exact commit_preserves_inv. Qed.
 Print Assumptions C03_commit_preserves_inv.
 
 (* Whole histories: starting from the empty store, after any sequence of dirty inserts (every blob
@@ -75,44 +79,44 @@ Print Assumptions C03_commit_preserves_inv.
    interrupted by a crash (cache lost, restart on the disk as it is) - at every crash point k of the
    next commit the disk is closed, so every root whose top node is present is resolvable, and every
    root resolvable before that commit is still resolvable with the same nodes. *)
-Theorem C03_history_crash_safe : ∀ ops r seq k,
-  let s := foldl step (Store ∅ ∅) ops in
-  hist_ok (Store ∅ ∅) ops → run (cache s) r seq →
+Theorem C03_history_crash_safe : ∀ (K : Type) `{!EqDecision K, !Countable K} (ops : list (@op K)) r seq k,
+  let s := foldl step (@Store K _ _ ∅ ∅) ops in
+  hist_ok (@Store K _ _ ∅ ∅) ops → run (cache s) r seq →
   closed (crash s seq k)
   ∧ (∀ r', is_Some (crash s seq k !! r') → resolvable (crash s seq k) r')
   ∧ (∀ r', resolvable (disk s) r' →
        resolvable (crash s seq k) r' ∧ ∀ h, reach (disk s) r' h → crash s seq k !! h = disk s !! h).
-Proof. exact history_crash_safe. Qed.
+Proof. intros K ? ?. exact history_crash_safe. Qed.
 Print Assumptions C03_history_crash_safe.
 
 (* "Never invalidates older roots", over whole histories: a root that is resolvable on disk at some
    point stays resolvable after ANY continuation (commits, failed writes, crashes, restarts), reaches
    exactly the same nodes and they hold the same blobs. *)
-Theorem C03_durable_forever : ∀ ops1 ops2 r,
-  let s1 := foldl step (Store ∅ ∅) ops1 in
-  let s2 := foldl step (Store ∅ ∅) (ops1 ++ ops2) in
-  hist_ok (Store ∅ ∅) (ops1 ++ ops2) → resolvable (disk s1) r →
+Theorem C03_durable_forever : ∀ (K : Type) `{!EqDecision K, !Countable K} (ops1 ops2 : list (@op K)) r,
+  let s1 := foldl step (@Store K _ _ ∅ ∅) ops1 in
+  let s2 := foldl step (@Store K _ _ ∅ ∅) (ops1 ++ ops2) in
+  hist_ok (@Store K _ _ ∅ ∅) (ops1 ++ ops2) → resolvable (disk s1) r →
   resolvable (disk s2) r
   ∧ (∀ h, reach (disk s1) r h → disk s2 !! h = disk s1 !! h)
   ∧ (∀ h, reach (disk s2) r h ↔ reach (disk s1) r h).
-Proof. exact durable_forever. Qed.
+Proof. intros K ? ?. exact durable_forever. Qed.
 Print Assumptions C03_durable_forever.
 
 (* "Durable and complete", over whole histories: once Commit(r) has run to the end, then after ANY
    continuation r is on disk and resolvable from the disk alone, and every node the pre-commit view
    (dirty cache over disk) reached from r is on disk with the same blob. *)
-Theorem C03_committed_root_survives : ∀ ops1 r seq ops2,
-  let s := foldl step (Store ∅ ∅) ops1 in
-  let s2 := foldl step (Store ∅ ∅) (ops1 ++ OCommit r seq :: ops2) in
-  hist_ok (Store ∅ ∅) (ops1 ++ OCommit r seq :: ops2) → is_Some (view s !! r) →
+Theorem C03_committed_root_survives : ∀ (K : Type) `{!EqDecision K, !Countable K} (ops1 : list (@op K)) r seq ops2,
+  let s := foldl step (@Store K _ _ ∅ ∅) ops1 in
+  let s2 := foldl step (@Store K _ _ ∅ ∅) (ops1 ++ OCommit r seq :: ops2) in
+  hist_ok (@Store K _ _ ∅ ∅) (ops1 ++ OCommit r seq :: ops2) → is_Some (view s !! r) →
   is_Some (disk s2 !! r) ∧ closed (disk s2) ∧ resolvable (disk s2) r
   ∧ (∀ h, reach (view s) r h → disk s2 !! h = view s !! h).
-Proof. exact committed_root_survives. Qed.
+Proof. intros K ? ?. exact committed_root_survives. Qed.
 Print Assumptions C03_committed_root_survives.
 
 (* The boolean checks the correspondence run evaluates imply the hypotheses used above. *)
-Theorem C03_tree_check_sound : ∀ c t, tree_okb c t = true → run c (troot t) (flatten t).
-Proof. intros c t H. exists t. split; [by apply tree_okb_sound|done]. Qed.
+Theorem C03_tree_check_sound : ∀ (K : Type) `{!EqDecision K, !Countable K} (c : gmap K (@dnode K)) t, tree_okb c t = true → run c (troot t) (flatten t).
+Proof. intros K ? ? c t Ht. exists t. split; [by apply tree_okb_sound|done]. Qed.
 Print Assumptions C03_tree_check_sound.
 
 (* Non-vacuity: a store with a non-empty closed disk, a dirty cache with a shared subtree (node 4 is
@@ -150,9 +154,9 @@ Example C03_history_example :
                OInsert 2%N (DNode [1%N] [1%N]); OInsert 4%N (DNode [] []);
                OInsert 3%N (DNode [2%N; 4%N] [2%N; 4%N]); OReference true 4%N 3%N;
                OCommit 3%N [4%N; 2%N; 4%N; 3%N] ] in
-  hist_ok (Store ∅ ∅) ops
-  ∧ disk (foldl step (Store ∅ ∅) ops) = {[ 1%N := []; 2%N := [1%N]; 3%N := [2%N; 4%N]; 4%N := [] ]}
-  ∧ cache (foldl step (Store ∅ ∅) ops) = ∅.
+  hist_ok (@Store N _ _ ∅ ∅) ops
+  ∧ disk (foldl step (@Store N _ _ ∅ ∅) ops) = {[ 1%N := []; 2%N := [1%N]; 3%N := [2%N; 4%N]; 4%N := [] ]}
+  ∧ cache (foldl step (@Store N _ _ ∅ ∅) ops) = ∅.
 Proof.
   intros ops. split; [|split; apply (bool_decide_unpack _); vm_compute; exact I].
   unfold ops. cbn [hist_ok op_ok step].
@@ -161,7 +165,200 @@ Proof.
   | |- insert_ok _ _ _ => apply insert_okb_sound; vm_compute; reflexivity
   | |- True => exact I
   end.
-  - apply (C03_tree_check_sound _ (TNode 2%N [TNode 1%N []])). by vm_compute.
-  - apply (C03_tree_check_sound _ (TNode 2%N [TNode 1%N []])). by vm_compute.
-  - apply (C03_tree_check_sound _ (TNode 3%N [TNode 4%N []; TNode 2%N [TSkip 1%N]; TNode 4%N []])). by vm_compute.
+  - apply (C03_tree_check_sound N _ (TNode 2%N [TNode 1%N []])). by vm_compute.
+  - apply (C03_tree_check_sound N _ (TNode 2%N [TNode 1%N []])). by vm_compute.
+  - apply (C03_tree_check_sound N _ (TNode 3%N [TNode 4%N []; TNode 2%N [TSkip 1%N]; TNode 4%N []])). by vm_compute.
+Qed.
+
+(* ====================== concrete layer ====================== *)
+(* C03 - property theorems of the concrete layer (statements + [exact]).
+   Reading guide: hashes are byte strings; a blob is an RLP node encoding; [blob_hkids]/[blob_lvals]
+   decode a blob the way node.go / database.go do and return the child references / leaf values found
+   in it; [blob_refs role e] are the references of e stored in a role (storage-trie node, account-trie
+   node: + storage root and code hash of the account RLP in its leaves, code: none).  A concrete history
+   [cop] is a sequence of trie commits (CTrie: hasher.store -> NodeDatabase.insert bottom-up over the
+   Merkle tree [mtree] of the dirty node encodings, + the leaf callback's Reference calls), code blob
+   inserts (CBlob), NodeDatabase.Commit runs that finished (CCommit), were ended by a Write error (CFail)
+   or by a crash (CCrash: dirty cache lost).  [U] is a universe of (blob, role) pairs on which the hash
+   function is collision free - the only assumption about the hash. *)
+Notation cstore0 := (@Store (list N) _ _ ∅ ∅).
+
+(* The decoder inverts the encoder: the references and leaf values the model reads out of the
+   encoding of a node are those of the node (RLP-encodable: bytes < 256, sizes < 2^64). *)
+Theorem C03_decode_inverts_encode : ∀ it, C08.Model.item_ok it →
+  blob_item (rlp it) = Some it ∧ blob_hkids (rlp it) = hkids it ∧ blob_lvals (rlp it) = lvals it.
+Proof. intros it Hok. by rewrite blob_item_encode, blob_hkids_encode, blob_lvals_encode. Qed.
+Print Assumptions C03_decode_inverts_encode.
+
+(* For every trie of the C02 model in minimal form and every dirty predicate on its nodes: the child
+   references decoded from a node's collapsed form are exactly the hashes of the sub-tries the hasher
+   stores (or finds clean) below it - tries are Merkle trees by construction. *)
+Theorem C03_trie_is_merkle_tree : ∀ (H : list N → list N), (∀ x, length (H x) = 32) →
+  ∀ dirty t, C02.Model.wfb t = true →
+  hkids (C02.Model.collapse H t) = map (mhash H) (TrieLink.msubs H dirty t).
+Proof. exact hkids_collapse. Qed.
+Print Assumptions C03_trie_is_merkle_tree.
+
+(* trie.Commit of ANY such trie is a well-formed concrete operation, given only that its nodes are
+   encodable and in the collision-free universe, that clean stored nodes are known to the database and
+   that what its leaf values refer to is known to the database. *)
+Theorem C03_trie_commit_ok : ∀ (H : list N → list N), (∀ x, length (H x) = 32) →
+  ∀ er ec U dirty r, r ≠ RCode → ∀ (s : cstore) t,
+  C02.Model.wfb t = true → trie_hyps H er ec U dirty r s t → dirty t = true →
+  cop_ok H er ec U s (CTrie r (TrieLink.mnode H dirty t)).
+Proof. exact trie_commit_ok. Qed.
+Print Assumptions C03_trie_commit_ok.
+
+(* AccountDB.Commit (dirty objects: code blob insert, storage trie commit; then the account trie
+   commit with its leaf callback) is a well-formed concrete history: the storage roots and code hashes
+   the account leaves refer to are known to the database because the objects are committed first. *)
+Theorem C03_account_commit_ok : ∀ H er ec U, collision_free H U → ∀ (s : cstore) ds acct,
+  inv s → uinv H er ec U s → Forall (dacct_ok H er ec U s) ds →
+  (∀ s', vle s s' → known H ds s' → mtree_ok H er ec U RAccount s' acct) →
+  chist_ok H er ec U s (account_commit ds acct)
+  ∧ is_Some (view (foldl (cstep H er ec) s (account_commit ds acct)) !! mhash H acct).
+Proof. exact account_commit_ok. Qed.
+Print Assumptions C03_account_commit_ok.
+
+(* "Durable and complete" for a whole state, as a theorem: after any concrete history, AccountDB.Commit
+   of a state followed by a NodeDatabase.Commit of its root that runs to the end leaves - after ANY
+   continuation (further blocks, write errors, crashes, restarts) - the state root on disk, the disk
+   closed, and every node the pre-commit view reached from the state root (account trie nodes; storage
+   trie nodes through the storage roots decoded from the account leaves; code blobs through their code
+   hashes) on disk with the same references. *)
+Theorem C03_account_state_durable : ∀ H er ec U, collision_free H U → ∀ os1 ds acct seq os2,
+  let s := foldl (cstep H er ec) cstore0 os1 in
+  let s1 := foldl (cstep H er ec) s (account_commit ds acct) in
+  let s2 := foldl (cstep H er ec) cstore0 ((os1 ++ account_commit ds acct) ++ CCommit (mhash H acct) seq :: os2) in
+  chist_ok H er ec U cstore0 os1 → Forall (dacct_ok H er ec U s) ds →
+  (∀ s', vle s s' → known H ds s' → mtree_ok H er ec U RAccount s' acct) →
+  run (cache s1) (mhash H acct) seq → chist_ok H er ec U (after_commit s1 seq) os2 →
+  is_Some (disk s2 !! mhash H acct) ∧ closed (disk s2) ∧ resolvable (disk s2) (mhash H acct)
+  ∧ (∀ h, reach (view s1) (mhash H acct) h → disk s2 !! h = view s1 !! h).
+Proof. exact account_state_durable. Qed.
+Print Assumptions C03_account_state_durable.
+
+(* Every concrete history is a history of the graph model all of whose inserts satisfy insert_ok:
+   the hypothesis of the graph-level theorems is discharged. *)
+Theorem C03_concrete_is_graph_history : ∀ H er ec U, collision_free H U → ∀ os,
+  chist_ok H er ec U cstore0 os →
+  ∃ ops, hist_ok cstore0 ops ∧ foldl step cstore0 ops = foldl (cstep H er ec) cstore0 os.
+Proof.
+  intros H er ec U Hcf os Hok.
+  destruct (chist_sim H er ec U Hcf _ os inv_empty (uinv_empty H er ec U) Hok) as (ops & ? & ? & _). eauto.
+Qed.
+Print Assumptions C03_concrete_is_graph_history.
+
+(* Crash safety over concrete histories: after any sequence of trie commits, code inserts, commits,
+   write errors and crashes/restarts, at EVERY crash point k of the next NodeDatabase.Commit (any put
+   sequence the walk can produce) the disk is closed under the references decoded from the blobs, every
+   root whose top node is on disk is fully resolvable, and every root resolvable before that commit
+   still is, with the same nodes. *)
+Theorem C03_concrete_crash_safe : ∀ H er ec U, collision_free H U → ∀ os root seq k,
+  let s := foldl (cstep H er ec) cstore0 os in
+  chist_ok H er ec U cstore0 os → run (cache s) root seq →
+  closed (crash s seq k)
+  ∧ (∀ y, is_Some (crash s seq k !! y) → resolvable (crash s seq k) y)
+  ∧ (∀ y, resolvable (disk s) y →
+       resolvable (crash s seq k) y ∧ ∀ h, reach (disk s) y h → crash s seq k !! h = disk s !! h).
+Proof. exact c_history_crash_safe. Qed.
+Print Assumptions C03_concrete_crash_safe.
+
+Theorem C03_concrete_durable_forever : ∀ H er ec U, collision_free H U → ∀ os1 os2 root,
+  let s1 := foldl (cstep H er ec) cstore0 os1 in
+  let s2 := foldl (cstep H er ec) cstore0 (os1 ++ os2) in
+  chist_ok H er ec U cstore0 (os1 ++ os2) → resolvable (disk s1) root →
+  resolvable (disk s2) root
+  ∧ (∀ h, reach (disk s1) root h → disk s2 !! h = disk s1 !! h)
+  ∧ (∀ h, reach (disk s2) root h ↔ reach (disk s1) root h).
+Proof. exact c_durable_forever. Qed.
+Print Assumptions C03_concrete_durable_forever.
+
+Theorem C03_concrete_committed_root_survives : ∀ H er ec U, collision_free H U → ∀ os1 root seq os2,
+  let s := foldl (cstep H er ec) cstore0 os1 in
+  let s2 := foldl (cstep H er ec) cstore0 (os1 ++ CCommit root seq :: os2) in
+  chist_ok H er ec U cstore0 (os1 ++ CCommit root seq :: os2) → is_Some (view s !! root) →
+  is_Some (disk s2 !! root) ∧ closed (disk s2) ∧ resolvable (disk s2) root
+  ∧ (∀ h, reach (view s) root h → disk s2 !! h = view s !! h).
+Proof. exact c_committed_root_survives. Qed.
+Print Assumptions C03_concrete_committed_root_survives.
+
+(* "Readable with the same value from the disk alone", as a theorem: after any concrete history, once
+   NodeDatabase.Commit of the root of a trie t (C02 model, minimal form; known to the database at that
+   moment) has run to the end, then after ANY continuation - further commits, write errors, crashes,
+   restarts - a fresh reader that has nothing but the disk (the blob store d, holding under every hash
+   on disk the blob of the universe with that hash) reopens the root (C02: decodeNode + resolveHash
+   until every reference is resolved) to exactly t: every key reads the value it had before.
+   Applies to a storage trie (r = RStorage) and to the account trie (r = RAccount). *)
+Theorem C03_committed_trie_reopens : ∀ (H : list N → list N), (∀ x, length (H x) = 32) →
+  ∀ er ec U, collision_free H U → ∀ (dirty : C02.Model.node → bool) r, r ≠ RCode →
+  ∀ os1 seq os2 t (d : list N → option (list N)),
+  let root := H (TrieLink.enc H t) in
+  let s := foldl (cstep H er ec) cstore0 os1 in
+  let s2 := foldl (cstep H er ec) cstore0 (os1 ++ CCommit root seq :: os2) in
+  chist_ok H er ec U cstore0 (os1 ++ CCommit root seq :: os2) →
+  is_Some (view s !! root) →
+  C02.Model.wf_trie t = true → t ≠ C02.Model.Empty → C02.Model.root_hash H t ≠ H [128%N] →
+  (∀ c, C02.ProofsB.subnode c t → C02.Model.wfb c = true →
+        C08.Model.item_ok (C02.Model.collapse H c) ∧ U (TrieLink.enc H c) r) →
+  (∀ h e r', is_Some (disk s2 !! h) → U e r' → H e = h → d h = Some e) →
+  C02.ModelB.reopen d (C02.Sem.size t) (H [128%N]) (C02.Model.root_hash H t) = Some t.
+Proof. exact committed_trie_reopens. Qed.
+Print Assumptions C03_committed_trie_reopens.
+
+(* Non-vacuity: with the identity as "hash", a one-leaf storage trie (key nibbles 0 1, value 05) is
+   committed, its disk commit crashes before the put, the trie is committed again after the restart and
+   the disk commit runs to the end - a well-formed concrete history; the leaf ends up on disk. *)
+Example C03_concrete_example :
+  let H := λ x : list N, x in
+  let e : list N := [196; 130; 32; 1; 5]%N in
+  let U := λ (b : list N) (r : role), b = e ∧ r = RStorage in
+  let os := [CTrie RStorage (MNode e []); CCrash e [e] 0; CTrie RStorage (MNode e []); CCommit e [e]] in
+  collision_free H U ∧ chist_ok H [] [] U cstore0 os
+  ∧ is_Some (disk (foldl (cstep H [] []) cstore0 os) !! e).
+Proof.
+  intros H e U os. split; [|split].
+  - intros a r a' r' [-> ->] [-> ->] _. done.
+  - assert (∀ s : cstore, mtree_ok H [] [] U RStorage s (MNode e [])) as Hok.
+    { intros s. constructor; [done|by vm_compute|constructor|constructor]. }
+    unfold os. cbn [chist_ok cop_ok]. split; [split; [done|apply Hok]|].
+    split; [|split; [split; [done|apply Hok]|split; [|done]]].
+    + apply (C03_tree_check_sound (list N) _ (TNode e [])). by vm_compute.
+    + apply (C03_tree_check_sound (list N) _ (TNode e [])). by vm_compute.
+  - vm_compute. eauto.
+Qed.
+
+(* Non-vacuity of C03_committed_trie_reopens: a 32-byte toy hash, a one-leaf trie (C02: run [OUpdate 1234 -> 40 bytes]),
+   committed by trie.Commit and NodeDatabase.Commit. *)
+Example C03_committed_trie_reopens_hyps :
+  let H := λ x : list N, take 32 (x ++ replicate 32 0%N) in
+  let t := C02.Model.run [C02.Model.OUpdate [18; 52]%N (replicate 40 7%N)] in
+  let root := H (TrieLink.enc H t) in
+  let U := λ (e : list N) (r : role), e = TrieLink.enc H t ∧ r = RStorage in
+  let os1 := [CTrie RStorage (TrieLink.mnode H (λ _, true) t)] in
+  (∀ x, length (H x) = 32) ∧ collision_free H U
+  ∧ chist_ok H [] [] U cstore0 (os1 ++ [CCommit root [root]])
+  ∧ is_Some (view (foldl (cstep H [] []) cstore0 os1) !! root)
+  ∧ C02.Model.wf_trie t = true ∧ t ≠ C02.Model.Empty ∧ C02.Model.root_hash H t ≠ H [128%N]
+  ∧ (∀ c, C02.ProofsB.subnode c t → C02.Model.wfb c = true →
+          C08.Model.item_ok (C02.Model.collapse H c) ∧ U (TrieLink.enc H c) RStorage).
+Proof.
+  intros H t root U os1.
+  assert (∀ c, C02.ProofsB.subnode c t → C02.Model.wfb c = true → c = t) as Hsub.
+  { intros c Hs Hw. vm_compute in Hs. inversion Hs as [|? ? ? Hs'|]; subst; [done|].
+    inversion Hs'; subst. discriminate. }
+  split; [|split; [|split; [|split; [|split; [|split; [|split]]]]]].
+  - intros x. unfold H. rewrite take_length, app_length, replicate_length. lia.
+  - intros a r a' r' [-> ->] [-> ->] _. done.
+  - split; [|split; [|done]].
+    + split; [done|]. unfold TrieLink.mnode.
+      replace (TrieLink.msubs H (λ _, true) t) with (@nil mtree) by (by vm_compute).
+      constructor; [done|by vm_compute|constructor|constructor].
+    + apply (C03_tree_check_sound (list N) _ (TNode root [])). by vm_compute.
+  - vm_compute. eauto.
+  - by vm_compute.
+  - by vm_compute.
+  - by vm_compute.
+  - intros c Hs Hw. rewrite (Hsub c Hs Hw). split; [|done].
+    cbn. repeat split; try (apply bytes_okb_spec; vm_compute; reflexivity); vm_compute; reflexivity.
 Qed.
